@@ -81,29 +81,14 @@ Proof. vm_compute. auto. Qed.
 
 (* ---- ReadUsersetTuples ---- *)
 
-(* missing parts: Conditions (dead test in the memory loop) and restriction lists in which two
-   entries match the same row (one copy per entry) *)
-Theorem memory_read_userset_tuples_eq_spec_partial : forall s f,
+(* full statement since fix d969704 (before it the memory loop never applied Conditions and
+   appended a row once per matching restriction entry); no_bare is the caller contract: every
+   restriction is type#relation or type:* *)
+Theorem memory_read_userset_tuples_eq_spec : forall s f,
   no_bare (uf_restr f) = true ->
-  flag_usersets_conditions_ignored s f = false ->
-  flag_usersets_duplicate_restrictions s f = false ->
   memory_read_userset_tuples s f = read_userset_tuples_spec s f.
-Proof. exact ReadProofs.memory_read_userset_tuples_eq_spec_partial. Qed.
-Print Assumptions memory_read_userset_tuples_eq_spec_partial.
-
-Theorem memory_read_userset_tuples_eq_spec_refuted_conditions :
-  exists s f, wf_store s = true /\ keys_unique s = true /\ wf_usersets_filter f = true /\
-              flag_usersets_duplicate_restrictions s f = false /\
-              ~ Permutation (memory_read_userset_tuples s f) (read_userset_tuples_spec s f).
-Proof. exact ReadProofs.memory_read_userset_tuples_eq_spec_refuted_conditions. Qed.
-Print Assumptions memory_read_userset_tuples_eq_spec_refuted_conditions.
-
-Theorem memory_read_userset_tuples_eq_spec_refuted_duplicates :
-  exists s f, wf_store s = true /\ keys_unique s = true /\ wf_usersets_filter f = true /\
-              flag_usersets_conditions_ignored s f = false /\
-              ~ Permutation (memory_read_userset_tuples s f) (read_userset_tuples_spec s f).
-Proof. exact ReadProofs.memory_read_userset_tuples_eq_spec_refuted_duplicates. Qed.
-Print Assumptions memory_read_userset_tuples_eq_spec_refuted_duplicates.
+Proof. exact ReadProofs.memory_read_userset_tuples_eq_spec. Qed.
+Print Assumptions memory_read_userset_tuples_eq_spec.
 
 Theorem sql_read_userset_tuples_eq_spec : forall s f,
   wf_store s = true -> wf_ofilter (uf_obj f) = true ->
@@ -113,8 +98,6 @@ Print Assumptions sql_read_userset_tuples_eq_spec.
 
 Theorem memory_eq_sql_read_userset_tuples : forall s f,
   wf_store s = true -> wf_usersets_filter f = true ->
-  flag_usersets_conditions_ignored s f = false ->
-  flag_usersets_duplicate_restrictions s f = false ->
   Permutation (memory_read_userset_tuples s f) (sql_read_userset_tuples s f).
 Proof. exact ReadProofs.memory_eq_sql_read_userset_tuples. Qed.
 Print Assumptions memory_eq_sql_read_userset_tuples.
@@ -122,9 +105,8 @@ Print Assumptions memory_eq_sql_read_userset_tuples.
 Example read_userset_tuples_nonvacuous :
   let f := mkUF (OFull b_doc b_2) b_viewer [RRel b_group b_member; RWild b_user] [[]; b_c1] in
   wf_store w_store = true /\ wf_usersets_filter f = true /\
-  flag_usersets_conditions_ignored w_store f = false /\
-  flag_usersets_duplicate_restrictions w_store f = false /\
-  read_userset_tuples_spec w_store f = [w_t2; w_t4].
+  read_userset_tuples_spec w_store f = [w_t2; w_t4] /\
+  memory_read_userset_tuples w_store (mkUF (OFull b_doc b_2) b_viewer [RRel b_group b_member; RRel b_group b_member] [[]]) = [].
 Proof. vm_compute. auto. Qed.
 
 (* ---- ReadStartingWithUser ---- *)
@@ -170,7 +152,6 @@ Proof. vm_compute. auto. Qed.
 
 (* the two backends disagree with each other on the unchanged code *)
 Theorem memory_eq_sql_refuted :
-  (exists s f, ~ Permutation (memory_read_userset_tuples s f) (sql_read_userset_tuples s f)) /\
   (exists s f, ~ Permutation (memory_rswu s f) (sql_rswu s f)) /\
   (exists s f, ~ Permutation (memory_read s f) (sql_read s f)).
 Proof. exact ReadProofs.memory_eq_sql_refuted. Qed.
